@@ -274,16 +274,34 @@ def normalize_user_regions(
     if user_regions is None:
         for reference in bam_references:
             regions[reference].append((0, None))
-    else:
-        bam_references = set(bam_references)
-        for region_spec in user_regions:
-            region = Region.parse(region_spec)
-            if region.chromosome not in bam_references:
-                raise ValueError(
-                    "Requested reference '{region.chromosome}' not found in input BAM/CRAM"
-                )
-            regions[region.chromosome].append((region.start, region.end))
-    return regions
+        return regions
+    for region_spec in user_regions:
+        region = Region.parse(region_spec)
+        if region.chromosome not in bam_references:
+            raise ValueError(
+                "Requested reference '{region.chromosome}' not found in input BAM/CRAM"
+            )
+        regions[region.chromosome].append((region.start, region.end))
+    # Process chromosomes in the order of the BAM header and make the regions of a chromosome
+    # sorted and non-overlapping, so that no record is fetched once per overlapping region.
+    return {
+        chromosome: merge_regions(regions[chromosome])
+        for chromosome in bam_references
+        if chromosome in regions
+    }
+
+
+def merge_regions(regions: List[Tuple[int, Optional[int]]]) -> List[Tuple[int, Optional[int]]]:
+    """Sort regions by start and merge those that overlap or are adjacent (end None: open)"""
+    merged: List[Tuple[int, Optional[int]]] = []
+    for start, end in sorted(regions, key=lambda region: region[0]):
+        if merged and (merged[-1][1] is None or start <= merged[-1][1]):
+            last_start, last_end = merged[-1]
+            if last_end is not None and (end is None or end > last_end):
+                merged[-1] = (last_start, end)
+        else:
+            merged.append((start, end))
+    return merged
 
 
 def compute_variant_file_samples_to_use(vcf_samples, user_given_samples, ignore_read_groups):
